@@ -570,6 +570,33 @@ fn run_all(rep: &mut Report, ctx_seed: u64, n: usize, thorough: bool) {
                 }
             }
         }
+        // round 7: every kind of tail behind one, two and three levels of dotted-tail flattening
+        {
+            let tails: Vec<fn() -> T> = vec![
+                || T::Vector(vec![T::Int(1), T::Int(2)]),
+                || T::Vector(vec![]),
+                || T::List(vec![]),
+                || T::List(vec![T::Sym("c".to_string()), T::Vector(vec![T::Int(3)])]),
+                || T::Str("s".to_string()),
+                || T::Int(7),
+                || T::KwOcto("k".to_string()),
+                || T::Nil,
+                || T::Sym("z".to_string()),
+                || T::Unquote(14, true),
+                || T::Unquote(16, true),
+            ];
+            for tl in &tails {
+                let d1 = T::Dotted(vec![b()], Box::new(tl()));
+                let d2 = T::Dotted(vec![a()], Box::new(d1.clone()));
+                let d3 = T::Dotted(vec![T::Int(0), a()], Box::new(d2.clone()));
+                directed.push(d1.clone());
+                directed.push(d2.clone());
+                directed.push(d3.clone());
+                directed.push(T::Vector(vec![d2.clone(), tl()]));
+                directed.push(T::List(vec![a(), d2.clone()]));
+                directed.push(T::Dotted(vec![a()], Box::new(T::List(vec![b(), tl()]))));
+            }
+        }
         for j in 0..UNQ_EXPRS.len() {
             directed.push(T::UnquoteExpr(j));
             directed.push(T::List(vec![a(), T::UnquoteExpr(j), b()]));
